@@ -12,8 +12,19 @@ use std::fmt;
 
 // ------------------------------------------------------------------ Val -> serde
 
+thread_local! {
+    static SER_HUMAN_READABLE: std::cell::Cell<bool> = const { std::cell::Cell::new(false) };
+}
+/// Did any serializer that a `Val` was written to claim to be human readable? (resets the flag)
+pub fn take_ser_human_readable() -> bool {
+    SER_HUMAN_READABLE.with(|c| c.replace(false))
+}
+
 impl Serialize for Val {
     fn serialize<S: ser::Serializer>(&self, s: S) -> Result<S::Ok, S::Error> {
+        if s.is_human_readable() {
+            SER_HUMAN_READABLE.with(|c| c.set(true));
+        }
         match self {
             Val::Bool(x) => s.serialize_bool(*x),
             Val::I8(x) => s.serialize_i8(*x),
@@ -100,6 +111,8 @@ pub struct Ctx {
     pub strs: RefCell<Vec<(usize, usize, bool)>>,
     /// set when the harness visitor stopped a zero-width element flood (case must be skipped)
     pub flood: std::cell::Cell<bool>,
+    /// set when a deserializer claimed to be human readable (postcard is a binary format)
+    pub human_readable_seen: std::cell::Cell<bool>,
 }
 
 pub const ZERO_WIDTH_FLOOD_LIMIT: usize = 300_000;
@@ -111,6 +124,7 @@ impl Ctx {
     pub fn clear(&self) {
         self.strs.borrow_mut().clear();
         self.flood.set(false);
+        self.human_readable_seen.set(false);
     }
 }
 
@@ -152,6 +166,9 @@ impl<'de, 's> DeserializeSeed<'de> for Seed<'s> {
     type Value = Val;
     fn deserialize<D: de::Deserializer<'de>>(self, d: D) -> Result<Val, D::Error> {
         let v = V { t: Target::Shape(self.shape), ctx: self.ctx };
+        if d.is_human_readable() {
+            self.ctx.human_readable_seen.set(true);
+        }
         match self.shape {
             Shape::Bool => d.deserialize_bool(v),
             Shape::I8 => d.deserialize_i8(v),
@@ -723,6 +740,11 @@ pub fn with_shape<R>(shape: &Shape, f: impl FnOnce() -> R) -> R {
     let _r = Reset(prev);
     DYN_CTX.with(|c| c.clear());
     f()
+}
+
+/// Did any deserializer claim to be human readable since the last `with_shape`?
+pub fn human_readable_seen() -> bool {
+    DYN_CTX.with(|c| c.human_readable_seen.get())
 }
 
 /// Did the harness visitor stop a zero-width flood since the last `with_shape`?
